@@ -5,6 +5,7 @@ import (
 	"go/types"
 	"math/rand"
 	"testing"
+	"unicode/utf8"
 )
 
 // Finite-domain tables: random expressions over picks and Boolean selectors must evaluate, under
@@ -105,6 +106,39 @@ func TestFDIndependentPicks(t *testing.T) {
 			both := andT(notT(cx), cy)
 			if (ev.eval(both) != 0) != (pi != 5 && qi == 5) {
 				t.Fatalf("and/not wrong at p=%d q=%d", pi, qi)
+			}
+		}
+	}
+}
+
+// the rune-count contract model against the real decoder: exhaustive over all strings of <= 2 bytes,
+// and over a boundary alphabet for 3 and 4 bytes
+func TestBstrRuneCountAgainstStdlib(t *testing.T) {
+	alpha := []byte{0x00, 0x41, 0x7F, 0x80, 0x8F, 0x90, 0x9F, 0xA0, 0xBF, 0xC0, 0xC1, 0xC2, 0xDF, 0xE0, 0xE1, 0xEC, 0xED, 0xEE, 0xEF, 0xF0, 0xF1, 0xF3, 0xF4, 0xF5, 0xFF}
+	check := func(bs []byte) {
+		s := make(BStr, len(bs))
+		for i, b := range bs {
+			s[i] = cBV(uint64(b), 8)
+		}
+		got := bstrRuneCount(s)
+		if !got.conc() || int(got.u()) != utf8.RuneCountInString(string(bs)) {
+			t.Fatalf("%x: model %v, stdlib %d", bs, got.u(), utf8.RuneCountInString(string(bs)))
+		}
+	}
+	check(nil)
+	for a := 0; a < 256; a++ {
+		check([]byte{byte(a)})
+		for b := 0; b < 256; b++ {
+			check([]byte{byte(a), byte(b)})
+		}
+	}
+	for _, a := range alpha {
+		for _, b := range alpha {
+			for _, c := range alpha {
+				check([]byte{a, b, c})
+				for _, d := range alpha {
+					check([]byte{a, b, c, d})
+				}
 			}
 		}
 	}
